@@ -3,6 +3,7 @@ import IwModel.Lemmas.TxtPtr
 import IwModel.Lemmas.TxtConv
 import IwModel.Lemmas.ReVm
 import IwModel.Lemmas.TxtItoa
+import IwModel.Lemmas.ReLimits
 /-! # C17 — text-consuming functions are memory-safe on any input and depend only on it
 
 Property theorems only; helper lemmas live in `IwModel/Lemmas/Txt*.lean`.
@@ -133,6 +134,102 @@ example : ReVm.Wf [.split 3 1, .any, .jump 0, .save 0, .chr 97, .save 1, .mtch] 
     rcases List.getElem?_eq_some_iff.mp h with ⟨hl, _⟩; simpa using hl
   match pc, hlt with
   | 0, _ | 1, _ | 2, _ | 3, _ | 4, _ | 5, _ | 6, _ => simp at h; subst h; simp
+
+
+/-! ### The regular-expression front end (`src/re/parse.c`, `src/re/compile.c`, the guard of `iwre_create`)
+
+`Re.parse`, `Re.compile`, `Re.create`, `Re.search` (Model/Re.lean) answer `.oob` for any access outside the
+pattern, the parser's node buffer (`2 * strlen` cells shared by operator stack and output), the class
+table or the program buffer (`estimate_instructions` entries); `.fuel` for a recursion of
+`parse_context` deeper than `strlen + 2` model calls (the model spends fuel on loop iterations too, so
+this dominates the C recursion depth); `.ub` where the C code overflows `int`; `.fail` = NULL. -/
+
+/-- **`cregex_parse` stays inside the pattern and inside its node buffer, and its recursion is bounded**:
+    for every non-empty C string `s` (any bytes: unbalanced parentheses, `[` without `]`, a trailing
+    backslash, `{` with junk, bytes ≥ 0x80 …) the parser never reads behind the terminator, never pushes
+    a node when the `2 * strlen` cells are used up (the potential `cells in use + cells the open frames
+    will still push ≤ 2 * characters consumed`), never takes a node from below its frame, and
+    `parse_context` nests at most `strlen + 2` deep. If it accepts, the tree is well-formed: no NUL
+    character node, every class node spans text that `parse_char_class` accepted, `nmin ≤ nmax`. -/
+theorem reparse_safe (s : Bytes) (hs : ∀ b ∈ s, b ≠ 0) (hne : s ≠ []) :
+    Re.parse (s ++ [0]) ≠ .oob ∧ Re.parse (s ++ [0]) ≠ .fuel ∧
+      ∀ root, Re.parse (s ++ [0]) = .ok root → Re.NodeOk (s ++ [0]) root := by
+  have h := Re.parse_spec s hs hne
+  refine ⟨fun e => by rw [e] at h; exact h, fun e => by rw [e] at h; exact h, fun root e => by rw [e] at h; exact h⟩
+
+/-- the guard `pattern[0] == 0 → refuse` of `iwre_create` is load-bearing: `cregex_parse("")` stores the
+    epsilon node into a buffer of `estimate_nodes("") = 0` cells (the instrumentation is live) -/
+theorem reparse_empty_pattern_overruns : Re.parse [0] = .oob := Re.parse_empty_oob
+
+/-- **`cregex_compile_node` emits a well-formed program into a buffer that is large enough**: for the
+    tree of every accepted pattern, `compile_char_class` re-reads only text the parser accepted (no read
+    outside the pattern, every `klass[ch / 8]` inside the 32-byte table), `compile_context` emits exactly
+    `count_instructions(node)` instructions (so `estimate_instructions` is never exceeded), every split /
+    jump target is an instruction of the program, no character instruction holds NUL, every
+    non-control instruction has a successor, class tables have 32 bytes = 256 bits, and the last
+    instruction is `MATCH`. The only other outcome is `.ub`: `count_instructions` / `estimate_instructions`
+    left `int` (open finding C17-RE-COUNT-COMPILE). -/
+theorem recompile_program_wf (s : Bytes) (hs : ∀ b ∈ s, b ≠ 0) (hb : ∀ b ∈ s, b < 256) (hne : s ≠ [])
+    (root : Re.Node) (hroot : Re.parse (s ++ [0]) = .ok root) :
+    match Re.compile (s ++ [0]) root with
+    | .ok prog => ReVm.Wf prog ∧ 0 < prog.length ∧ prog.getLast? = some .mtch ∧
+        (∀ neg bits, ReVm.Instr.cls neg bits ∈ prog → bits.length = 32) ∧
+        prog.length = (Re.wrapRoot root).countN + 1
+    | .ub => root.count = none ∨ ∃ k, root.count = some k ∧ Re.intMax < k + 6
+    | _ => False := by
+  have h := Re.compile_spec (Re.bytes_lt_append s hb) root ((reparse_safe s hs hne).2.2 root hroot)
+  cases hc : Re.compile (s ++ [0]) root <;> rw [hc] at h <;> exact h
+
+/-- **parse → compile → run never leaves a buffer and terminates**: for every non-empty pattern, every
+    subject text and every `nmatches`, `iwre_create` followed by `cregex_program_run` ends with a match
+    result, with a refused pattern, or at one of the `int` overflows of the open findings — never with an
+    out-of-range access in parser, compiler or VM, never with unbounded recursion. This discharges the
+    well-formedness hypothesis of `revm_safe` for every program the compiler can emit. -/
+theorem compiled_program_safe (s : Bytes) (hs : ∀ b ∈ s, b ≠ 0) (hb : ∀ b ∈ s, b < 256) (hne : s ≠ [])
+    (text : Bytes) (nmatches : Nat) :
+    (∃ r, Re.search (s ++ [0]) text nmatches = .ok r) ∨ Re.search (s ++ [0]) text nmatches = .fail ∨
+      Re.search (s ++ [0]) text nmatches = .ub :=
+  Re.search_spec s hs hb hne text nmatches
+
+/-- **Within the size limits there is no overflow either**: if the pattern is shorter than 2^30 bytes, no
+    run of decimal digits in it is longer than 9 (so every repetition count is < 10^9), and the weight of
+    the parsed tree (a monotone bound of every intermediate value of `count_instructions`: repetition
+    counts multiply the weight of what they repeat) satisfies `2 * (weight + 6) ≤ INT_MAX`, then
+    parse → compile → run ends with a match result or a refused pattern. -/
+theorem compiled_program_safe_within_limits (s : Bytes) (hs : ∀ b ∈ s, b ≠ 0) (hb : ∀ b ∈ s, b < 256) (hne : s ≠ [])
+    (text : Bytes) (nmatches : Nat) (hlen : 2 * s.length ≤ Re.intMax) (hdig : ∀ i, Re.digitRun (s ++ [0]) i ≤ 9)
+    (hw : ∀ root, Re.parse (s ++ [0]) = .ok root → 2 * (root.weight + 6) ≤ Re.intMax) :
+    (∃ r, Re.search (s ++ [0]) text nmatches = .ok r) ∨ Re.search (s ++ [0]) text nmatches = .fail := by
+  rcases Re.search_spec s hs hb hne text nmatches with h | h | h
+  · exact Or.inl h
+  · exact Or.inr h
+  · exact absurd h (Re.search_within_limits s hs hb hne text nmatches hlen hdig hw)
+
+/-- **The accepted tree fits the node buffer and bounds the compiler's recursion**: the tree of an accepted
+    pattern has at most `2 * strlen` nodes (the cells `cregex_parse` allocated), so the recursion of
+    `count_instructions`, `node_is_anchored` and `compile_context` (once per level of the tree; concatenations
+    are right-nested, so the height grows with the length) is at most `2 * strlen` deep (+3 for the nodes
+    `compile_node_with_program` puts on top). Whether that many C frames fit the machine stack is not a
+    statement about the algorithm: open finding C17-RE-DEPTH. -/
+theorem reparse_tree_bounded (s : Bytes) (hs : ∀ b ∈ s, b ≠ 0) (hne : s ≠ []) (root : Re.Node)
+    (h : Re.parse (s ++ [0]) = .ok root) : root.size ≤ 2 * s.length ∧ root.height ≤ 2 * s.length :=
+  Re.parse_size s hs hne root h
+
+/-- the model exhibits the two open `int` overflows on their witnesses: `a{99999999999}` (parse_interval) and
+    the tree of `((a{60000}){60000})` (count_instructions) -/
+theorem refront_overflow_witnesses :
+    Re.parse [97, 123, 57, 57, 57, 57, 57, 57, 57, 57, 57, 57, 57, 125, 0] = .ub ∧
+    ∀ pat, Re.compile pat (.cap (.quant 60000 (some 60000) true (.cap (.quant 60000 (some 60000) true (.chr 97))))) = .ub :=
+  ⟨Re.parse_count_overflow, Re.compile_count_overflow⟩
+
+/-- non-vacuity: the limits hold for an ordinary pattern (`a|b+`): no long digit run, a tree of weight 8 -/
+example : ∀ i, Re.digitRun [97, 124, 98, 43, 0] i ≤ 9 := by
+  intro i; have := Re.digitRun_le [97, 124, 98, 43, 0] i; simp at this; omega
+example : Re.parse [97, 124, 98, 43, 0] = .ok (.alt (.chr 97) (.quant 1 none true (.chr 98))) ∧
+    (Re.Node.alt (.chr 97) (.quant 1 none true (.chr 98))).weight = 8 := by
+  constructor
+  · simp [Re.parse, Re.strlen, Re.pctx, Re.lexStep, Re.quantStep, Re.concat, Re.concatFold, Re.merge, Re.push, Re.intMax, Re.Node.isEps]
+  · simp [Re.Node.weight]
 
 /-- the generated constants the theorems lean on -/
 theorem gen_side_conditions : Txt.escMap 0 = 256 ∧ Gen.IWNUMBUF_SIZE = 32 ∧ Gen.JBL_PTR_OFF_N ≤ Gen.JBL_PTR_SIZEOF := by decide
